@@ -76,7 +76,7 @@ pub fn gen_c14h(rng: &mut Prng, plan: &mut Plan) {
         3 => vec![(126, 132, 2), (60, 68, 1), (250, 262, 1)],
         4 => vec![(0, 40, 1)],
         5 => vec![(62, 68, 2), (1, 2, 1), (3, 6, 1)],
-        _ => vec![(508, 520, 2), (1020, 1030, 1), (60, 70, 1), (2, 6, 1)],
+        _ => if thorough && rng.chance(1, 3) { vec![(1540, 1620, 2), (510, 520, 1), (2, 6, 1)] } else { vec![(508, 520, 2), (1020, 1030, 1), (60, 70, 1), (2, 6, 1)] },
     };
     let big = lens.iter().any(|l| l.1 > 200);
     let p = Profile {
